@@ -11,6 +11,13 @@ Open Scope string_scope.
 (** ** Small helpers *)
 Definition mem (x : string) (l : list string) : bool := existsb (String.eqb x) l.
 
+(** Two name lists with the same members and the same number of entries.  Declaration order in the
+    source (order of impl blocks, of methods inside a block) carries no meaning, so statements of the
+    form "the .. are exactly [a; b; c]" are made with [same_set]; when the expected list is duplicate-free
+    (it is a literal in each statement) this says: a permutation of it. *)
+Definition same_set (a b : list string) : bool :=
+  Nat.eqb (length a) (length b) && forallb (fun x => mem x b) a && forallb (fun x => mem x a) b.
+
 Fixpoint assoc_find {A} (k : string) (l : list (string * A)) : option A :=
   match l with
   | [] => None
